@@ -107,7 +107,12 @@ def modelled(a):
         return False
     if a['kind'] in ('Plant', 'CHPAsset'):
         # start / shutdown ramp profiles and frequencies other than the grid's are not modelled
-        return not any(a.get(k) for k in ('start_ramp_lower_bounds', 'shutdown_ramp_lower_bounds', 'freq', 'periodicity'))
+        # separate heat profiles, profiles in another frequency than the grid's and asset frequencies other than the grid's are not modelled
+        if any(a.get(k) for k in ('start_ramp_lower_bounds_heat', 'shutdown_ramp_lower_bounds_heat', 'freq', 'periodicity')):
+            return False
+        if any(a.get(k) for k in ('start_ramp_lower_bounds', 'shutdown_ramp_lower_bounds')):
+            return a.get('ramp_freq') is not None and a.get('ramp_freq_is_grid_freq', True)
+        return True
     if a.get('block_size'):
         return False
     if a['kind'] == 'ScaledAsset':
